@@ -1,4 +1,5 @@
 """C07 Received packets reach exactly the matching callbacks, once, in order."""
+from vf.explore import Yield
 from vf.harness import Harness
 from vf.env.base import FakeLink, step
 from cflib.crazyflie import Crazyflie, _IncomingPacketHandler
@@ -92,13 +93,48 @@ def h_dispatch(sym):
         else:
             inc.add_header_callback(r['cb'], r['port'], r['ch'], r['pmask'], r['cmask'])
     sym.apply_known()
-    for k in range(NPK):
+    cur = {}
+
+    def begin(k):
         state['k'] = k
         state['removed_now'] = set()
-        present_at_start = [i for i, r in enumerate(regs) if r['present']]
-        pk = CRTPPacket(hdrs[k], [k])
-        cf.link.rx.append(pk)
+        cur['k'] = k
+        cur['present_at_start'] = [i for i, r in enumerate(regs) if r['present']]
+
+    def finish():
+        if 'k' not in cur:
+            return
+        k, present_at_start = cur.pop('k'), cur.pop('present_at_start')
+        _check_dispatch(sym, k, present_at_start, regs, calls, hdrs, state)
+
+    if sym.B.get('burst'):
+        # all packets are waiting when the handler runs: one activation of run() dispatches them back to back (whatever it
+        # keeps in locals between packets is in scope); the per-packet checks run when the handler asks for the next packet
+        link = cf.link
+
+        def receive_packet(wait=0):
+            finish()
+            if not link.rx:
+                raise Yield()
+            pk = link.rx.pop(0)
+            begin(pk.data[0])
+            return pk
+        link.receive_packet = receive_packet
+        for k in range(NPK):
+            link.rx.append(CRTPPacket(hdrs[k], [k]))
         assert step(inc) == 'yield', 'dispatcher thread died'
+        assert not cur and not link.rx
+        sym.goal('back-to-back')
+        return
+    for k in range(NPK):
+        begin(k)
+        cf.link.rx.append(CRTPPacket(hdrs[k], [k]))
+        assert step(inc) == 'yield', 'dispatcher thread died'
+        finish()
+
+
+def _check_dispatch(sym, k, present_at_start, regs, calls, hdrs, state):
+    if True:
         got = [i for (kk, i) in calls if kk == k]
         port, chan = hdrs[k] >> 4, hdrs[k] & 3
         # (1) only matching registrations are invoked
@@ -220,6 +256,10 @@ HARNESSES = [
             thorough=dict(regs=5, packets=2, concrete_regs=True, callable_kinds=True), timeout=(300, 3000),
             goals=('delivered', 'removed-during-dispatch')),
     # both at once, small
+    Harness('mutate[back-to-back]', h_dispatch, quick=dict(regs=3, packets=2, concrete_regs=True, burst=True),
+            thorough=dict(regs=4, packets=3, concrete_regs=True, burst=True), timeout=(300, 2000),
+            goals=('delivered', 'removed-during-dispatch', 'back-to-back'),
+            note='both packets are waiting when the handler runs: one activation of run() dispatches them (state kept in its locals is in scope)'),
     Harness('combined', h_dispatch, quick=dict(regs=2, packets=1), thorough=dict(regs=2, packets=2), timeout=(200, 2000),
             goals=('delivered', 'removed-during-dispatch')),
     Harness('shared-callback', h_shared_callback, quick=dict(regs=2), thorough=dict(regs=3), timeout=(300, 1800), goals=('still-delivered',)),
